@@ -546,8 +546,8 @@ Section Variants.
     upgradeable (clear_unsaved (with_ms st s')) = false /\ upgradeable (with_ms st s') = false.
   Proof.
     intros EL On. unfold upgradeable, clear_unsaved, with_ms. cbn [skipf].
-    destruct (skipf st) eqn:Sk; cbn [skipf mlabel ms negb andb]; [rewrite Sk; auto|].
-    rewrite Sk, (On eq_refl), EL, Z.eqb_refl. auto.
+    destruct (skipf st) eqn:Sk; cbn [skipf mlabel ms negb andb]; [auto|].
+    rewrite (On eq_refl), EL, Z.eqb_refl. auto.
   Qed.
 
   Theorem rebuild_from_loaded_unobservable st o :
@@ -587,3 +587,159 @@ Section Variants.
         cbn [with_ms ms version]; congruence.
   Qed.
 End Variants.
+
+(** ** Refutations *)
+Definition xk1 : bytes := [107%N; 49%N].
+Definition xk2 : bytes := [107%N; 50%N].
+Definition xk3 : bytes := [107%N; 51%N].
+Definition xva : bytes := [97%N].
+Definition xvb : bytes := [98%N].
+Definition xvc : bytes := [99%N].
+
+(** the tree opened with the index on, on an empty store *)
+Definition st_on (H : bytes -> bytes) : fstate := fst (fstep H (finit 0 false) (FOpen false)).
+Definition st_off (H : bytes -> bytes) : fstate := fst (fstep H (finit 0 false) (FOpen true)).
+
+(** [fstep_logical] / [frun_logical] need [save_honest]: with a colliding hash function an
+    "idempotent" re-commit replaces the working tree by a DIFFERENT stored tree while the unsaved
+    additions of the replaced tree keep being served.  (With a collision-free hash function the
+    hash test of SaveVersion implies equal contents; the examples below check [save_honest]
+    by computation for SHA-256.) *)
+Definition ops_collide : list fop :=
+  [FSet xk1 xva; FSave; FSet xk1 xvb; FSave; FLoad 1; FSet xk1 xvc; FSave; FGet xk1].
+
+Theorem recommit_colliding_hash_refuted :
+  exists (H : bytes -> bytes) (ops : list fop),
+    let st0 := st_on H in
+    state_inv (ms st0) /\ contig (ms st0) /\ fcoh st0 /\
+    run_okb H (ms st0) (map logical ops) = true /\
+    last (snd (frun H st0 ops)) XErr = XBytes (Some xvc) /\
+    last (snd (run H (ms st0) (map logical ops))) XErr = XBytes (Some xvb).
+Proof.
+  exists (fun _ => []), ops_collide. cbv zeta.
+  destruct (fgood_opened (fun _ => []) 0 false false) as [I C Co]; [unfold init_ok; lia|].
+  split; [exact I|]. split; [exact C|]. split; [exact Co|].
+  vm_compute. repeat split; reflexivity.
+Qed.
+
+(** (a) If LoadVersionForOverwriting kept the label while the index is off, a later history
+    that reaches the same version number with different contents would be served from the
+    stale index. *)
+Definition ops_drop : list fop :=
+  [FSet xk1 xva; FSave; FSet xk1 xvb; FSave; FOpen true; FLvfo 1; FSet xk1 xvc; FSave;
+   FOpen false; FGet xk1].
+
+Theorem drop_label_refuted :
+  exists ops : list fop,
+    let st0 := st_on sha256 in
+    frun_okb sha256 st0 ops = true /\
+    last (snd (frun_with (fstep_nodrop sha256) st0 ops)) XErr = XBytes (Some xvb) /\
+    last (snd (run sha256 (ms st0) (map logical ops))) XErr = XBytes (Some xvc) /\
+    last (snd (frun sha256 st0 ops)) XErr = XBytes (Some xvc).
+Proof. exists ops_drop. vm_compute. repeat split; reflexivity. Qed.
+
+(** (b) If the index were rebuilt from the loaded tree (labelled with the latest version), a
+    tree object that loads an old version FIRST (NewMutableTree + LoadVersion(1), no Load())
+    would serve version 1's values for version 2.  The model's own [FOpen] always loads the
+    latest version first, which is why the variant cannot be observed with the model's
+    operations alone ([rebuild_from_loaded_unobservable]); the witness therefore starts from
+    [fresh_object]. *)
+Definition ops_before : list fop := [FSet xk1 xva; FSave; FSet xk1 xvb; FSave].
+Definition ops_after : list fop := [FLoad 1; FGetImm 2 xk1; FGetVersioned xk1 2].
+
+Theorem rebuild_from_loaded_refuted :
+  exists (ops1 ops2 : list fop),
+    let st1 := fresh_object (fst (frun sha256 (st_off sha256) ops1)) false in
+    frun_okb sha256 (st_off sha256) ops1 = true /\
+    snd (frun_with (fstep_loaded sha256) st1 ops2) =
+      [XInt 2; XBytes (Some xva); XBytes (Some xva)] /\
+    snd (run sha256 (ms st1) (map logical ops2)) =
+      [XInt 2; XBytes (Some xvb); XBytes (Some xvb)] /\
+    snd (frun sha256 st1 ops2) = [XInt 2; XBytes (Some xvb); XBytes (Some xvb)].
+Proof. exists ops_before, ops_after. vm_compute. repeat split; reflexivity. Qed.
+
+(** ** Examples: a history with the index toggled across reopens, a load of an old version, an
+    idempotent re-commit, a rollback, LoadVersionForOverwriting, a different re-commit of the
+    same version number, pruning *)
+Definition ops_example : list fop :=
+  [FSet xk1 xva; FSet xk2 xvb; FSave; FGet xk1; FIter; FSet xk1 xvc; FRemove xk2; FGet xk2; FIter;
+   FSave; FGetImm 1 xk2; FGetVersioned xk1 1; FOpen true; FSet xk3 xva; FSave; FOpen false;
+   FGet xk3; FIterImm 3; FLoad 2; FGet xk1; FIter; FSet xk3 xva; FSave; FGet xk3; FIter;
+   FSet xk2 xva; FRollback; FGet xk2; FLvfo 2; FGet xk3; FIter; FSet xk1 xva; FSave; FGet xk1;
+   FGetImm 3 xk1; FGetImm 2 xk1; FPrune 1; FGetVersioned xk1 2; FGetVersioned xk1 1;
+   FIterImm 3; FIterImm 2].
+
+Example example_in_contract :
+  init_ok 0 false /\ frun_okb sha256 (st_on sha256) ops_example = true.
+Proof. split; [unfold init_ok; lia|vm_compute; reflexivity]. Qed.
+
+(** the idempotent re-commit of version 3 (23rd operation) succeeds, and the index is in use
+    at the end *)
+Example example_nontrivial :
+  nth 22 (snd (frun sha256 (st_on sha256) ops_example)) XErr =
+    nth 14 (snd (frun sha256 (st_on sha256) ops_example)) XOk /\
+  nth 14 (snd (frun sha256 (st_on sha256) ops_example)) XErr <> XErr /\
+  let st := fst (frun sha256 (st_on sha256) ops_example) in
+  fidx st = [(xk1, (3, xva))] /\ dlabel st = Some 3 /\ skipf st = false /\
+  available (ms st) = [2; 3].
+Proof.
+  vm_compute. split; [reflexivity|]. split; [discriminate|]. repeat split; reflexivity.
+Qed.
+
+Example fcoh_init_example : fcoh (st_on sha256) /\ fcoh (st_off sha256).
+Proof. split; apply fcoh_init; unfold init_ok; lia. Qed.
+
+Example fcoh_step_example :
+  let st := fst (frun sha256 (st_on sha256) ops_example) in
+  fcoh st /\ fcoh (fst (fstep sha256 st (FSet xk2 xvb))).
+Proof.
+  cbv zeta.
+  destruct (frun_logical_from sha256 ops_example (st_on sha256)
+              (fgood_opened sha256 0 false false ltac:(unfold init_ok; lia))
+              (frun_okb_sound sha256 _ _ (proj2 example_in_contract))) as (G & _ & _).
+  split; [apply G|]. apply fcoh_step; try apply G. split; exact Logic.I.
+Qed.
+
+(** the answers computed through the index agree with MTree on the whole history, by
+    computation and by the theorem *)
+Example frun_logical_example_computed :
+  snd (frun sha256 (st_on sha256) ops_example) =
+  snd (run sha256 (ms (st_on sha256)) (map logical ops_example)).
+Proof. vm_compute. reflexivity. Qed.
+
+Example frun_logical_example :
+  snd (frun sha256 (st_on sha256) ops_example) =
+  snd (run sha256 (ms (st_on sha256)) (map logical ops_example)) /\
+  fcoh (fst (frun sha256 (st_on sha256) ops_example)).
+Proof.
+  destruct (frun_logical sha256 0 false false ops_example (proj1 example_in_contract)
+              (frun_okb_sound sha256 _ _ (proj2 example_in_contract))) as (_ & _ & E & Co).
+  split; assumption.
+Qed.
+
+Example fstep_logical_example :
+  let st := fst (frun sha256 (st_on sha256) (firstn 19 ops_example)) in
+  (* index on, version 2 loaded while 3 is the latest *)
+  skipf st = false /\ version (ms st) = 2 /\ latest_version (ms st) = 3 /\
+  snd (fstep sha256 st (FGet xk3)) = XBytes None /\
+  snd (fstep sha256 st (FGet xk3)) = snd (step sha256 (ms st) (logical (FGet xk3))) /\
+  snd (fstep sha256 st (FGetImm 3 xk3)) = XBytes (Some xva) /\
+  snd (fstep sha256 st (FGetImm 3 xk3)) = snd (step sha256 (ms st) (logical (FGetImm 3 xk3))).
+Proof. vm_compute. repeat split; reflexivity. Qed.
+
+(** the persisted invariant, observed: the values of the index are the pairs of the latest
+    tree at the end of the history *)
+Example idx_valid_example :
+  let st := fst (frun sha256 (st_on sha256) ops_example) in
+  mapv (fun e : Z * bytes => snd e) (fidx st) = oelems (ltree (ms st)).
+Proof. vm_compute. reflexivity. Qed.
+
+Print Assumptions fcoh_init.
+Print Assumptions fcoh_step.
+Print Assumptions fstep_logical.
+Print Assumptions frun_logical.
+Print Assumptions frun_logical_from_init.
+Print Assumptions recommit_colliding_hash_refuted.
+Print Assumptions drop_label_refuted.
+Print Assumptions rebuild_from_loaded_refuted.
+Print Assumptions rebuild_from_loaded_unobservable.
